@@ -17,6 +17,14 @@ Streams, in this order:
      * family:  original, copy(), copy(freeze_parameters=True), copy of the copy, a + b, b + a, hosts that
                 hold the original as an added sub-circuit (grouped / not): ONE member is rewritten, every
                 member is looked at, then every other member is rewritten too;
+  1b. VALUES AT REWRITE TIME (c09gen.corpus_degenerate, then c09gen.degenerate_history, own random stream):
+     a phase / reflectivity / loss element / loss= keyword - Parameter-valued or constant, at the top level,
+     inside a group, an ungrouped or nested or heralded block, shared between the top level and a group - holds
+     a DEGENERATE value (loss 0 or 1, reflectivity 1 or 0 in both conventions, phase 0, pi, 2*pi, -pi) while the
+     rewrites run and is the only thing between two swaps of which the second acts on its modes; every rewrite
+     sequence is applied to copies that stay linked to the same Parameters (and to frozen copies); THEN the
+     Parameters move to generic values, everybody is rewritten again, they move to another degenerate value,
+     rewrites, generic again.  A rewrite may not specialise on the value a live Parameter holds when it runs;
   2. the one-circuit programs of the first version (swap-dense generator and the C02 tree generator followed
      by 1-5 random rewrites incl. copy, with the copy-mutation probe) - `run_case`;
   3. random histories: swaps (biased to the boundary modes of the blocks added so far), plain / grouped /
@@ -62,8 +70,9 @@ TRUSTED = [
 ]
 ASSUMPTIONS = ["<= 7 modes, <= 25 components, <= 5 rewrites per circuit in the one-circuit programs",
                "histories: main circuits with 3-6 user modes, <= ~10 construction steps, <= 6 related circuits, "
-               "<= 8 rewrite / Parameter.set events; Parameters take exact values (rational points of the circle, "
-               "Pythagorean reflectivities and losses); groups nest at most one level in constructible circuits "
+               "<= 8 rewrite / Parameter.set events (values-at-rewrite-time histories: <= 10 related circuits, <= 35 "
+               "events); Parameters take exact values (rational points of the circle, Pythagorean reflectivities and "
+               "losses, incl. 0 / 1 / pi and phases wound by +-2*pi); groups nest at most one level in constructible circuits "
                "(Circuit.add flattens what it groups), deeper nesting is exercised through nested additions"]
 
 REWRITES = ["unpack", "compress", "nonadj", "copy"]
@@ -445,7 +454,10 @@ def check_history(ctx: Ctx, prog: list, top: str, stream: str, nontriv: bool = T
 def run(ctx: Ctx) -> None:
     ctx.rule = ("(1) directed histories: block x ancilla position x boundary swap x rewrite sequence (hoist), "
                 "Parameter placement x kind x rewrite sequence x later Parameter.set (params), families of related "
-                "circuits with one member rewritten (family); (2) one-circuit programs from the C02 tree generator and a "
+                "circuits with one member rewritten (family); (1b) values at rewrite time: a Parameter-valued or constant "
+                "component that holds a degenerate value (loss 0 / 1, reflectivity 1 / 0, phase 0 / pi / 2pi) between two swaps "
+                "x placement x rewrite sequence on linked copies, then the Parameter moves to a generic value, further "
+                "rewrites, another degenerate value, generic again - directed and random; (2) one-circuit programs from the C02 tree generator and a "
                 "swap-dense generator followed by 1-5 random rewrites (unpack_groups, compress_mode_swaps, "
                 "remove_non_adjacent_bs, copy); (3) random histories mixing all of it, rewrites on any live circuit "
                 "interleaved with Parameter.set; after every rewrite / set every live circuit is compared with its own "
